@@ -1214,7 +1214,7 @@ def gated_values(v, name, at, via=None):
     param_reaches = name in v.ev._params and v.ev._param_reaches(name, atn, restrict)
     execs = {n.id: full_term(v, n.stmt) for n in nodes}
     for n in nodes:
-        killers = [m for m in nodes if m.id != n.id and m.id in reach_fwd(n.id) and (atn.id in reach_fwd(m.id) or m.id == atn.id)]
+        killers = [m for m in nodes if m.id != n.id and m.id != atn.id and m.id in reach_fwd(n.id) and atn.id in reach_fwd(m.id)]
         cond = v.ev._bool("and", [execs[n.id]] + [v.ev._not(execs[m.id]) for m in killers])
         val = v.ev._def_term(name, n, restrict)
         out.append((cond, val, n.stmt))
